@@ -17,7 +17,7 @@ import random
 
 from . import session as SS
 
-MAX_OPS = {"C12": 5, "C14": 7, "C15": 6, "C17": 8, "C19": 9}
+MAX_OPS = {"C12": 5, "C14": 7, "C15": 6, "C17": 8, "C19": 9, "C09": 8}
 
 
 def base_scenario(prop, seed, tier):
